@@ -84,8 +84,8 @@ fn load_world(repo: &Path, work: &Path) -> World {
         ),
         (
             "syn_deprecated__q",
-            "schema { query: Query }\ntype Query { currentUser: User, role: Role }\ntype User { id: ID!, name: String, oldName: String @deprecated(reason: \"Use name\"), legacy: Int @deprecated(reason: \"gone \\\"for good\\\"\"), vintage: Int @deprecated }\nenum Role { ADMIN OLD @deprecated(reason: \"x\") USER }\n",
-            "query Dep { currentUser { id name oldName legacy vintage } role }\n",
+            "schema { query: Query }\ntype Query { currentUser: User, role: Role }\ntype User { id: ID!, name: String, oldName: String @deprecated(reason: \"Use name\"), legacy: Int @deprecated(reason: \"gone \\\"for good\\\"\"), vintage: Int @deprecated, ancient: Int @deprecated(reason: \"No longer supported\") }\nenum Role { ADMIN OLD @deprecated(reason: \"x\") USER }\n",
+            "query Dep { currentUser { id name oldName legacy vintage ancient } role }\n",
         ),
         (
             // documentation and directives: block-string descriptions, a directive definition,
